@@ -19,7 +19,7 @@ import (
 func main() {
 	hx.Main("C03", func(e *hx.Env) *hx.Report {
 		r := hx.NewReport("C03", e.Tier, e.Seed, c3.Rule)
-		mon := c3.MonitorC03
+		mon := plugin.Monitors(c3.MonitorDefaults, c3.MonitorC03)
 		if e.Replay != "" {
 			c3.RunFile(e, r, e.Replay, mon, false)
 			return r
